@@ -50,8 +50,12 @@ STR_POOL = [["s", "a"], ["s", "b"], ["s", "ab"], ["s", ""], ["s", "A"]]
 BOOL_POOL = [["b", True], ["b", False]]
 DATE_POOL = [["d", 738000], ["d", 738001], ["d", 738400]]
 MIXED_POOL = [["i", 1], ["s", "a"], ["b", True], ["s", "1"], ["i", 2], ["d", 738000]]
-POOLS = {"int": INT_POOL, "str": STR_POOL, "bool": BOOL_POOL, "date": DATE_POOL, "mixed": MIXED_POOL}
-SENTINEL = {"int": ["i", 77], "str": ["s", "zz"], "date": ["d", 700000], "mixed": ["s", "zz"]}
+# unequal keys with equal hash() (hash(-1) == hash(-2), hash(2**61-1) == hash(0)): an index, a seen-set or a
+# memo that stands in for key tuples by their hash (or by a fingerprint built on it) confuses them
+HASH_POOL = [["i", -1], ["i", -2], ["i", 0], ["i", 2 ** 61 - 1], ["i", 5]]
+POOLS = {"int": INT_POOL, "str": STR_POOL, "bool": BOOL_POOL, "date": DATE_POOL, "mixed": MIXED_POOL,
+         "hash": HASH_POOL}
+SENTINEL = {"int": ["i", 77], "str": ["s", "zz"], "date": ["d", 700000], "mixed": ["s", "zz"], "hash": ["i", 77]}
 
 
 def _payload_col(rng, side, j, n):
@@ -92,7 +96,7 @@ def gen_pair(rng, maxrows=8, how=None, force_sort=None, min_rows=0):
         nk = rng.choice([1, 1, 2, 2, 3])
         lkeys, rkeys, ok = [], [], True
         for q in range(nk):
-            sort = force_sort or rng.choice(["int", "int", "str", "str", "bool", "date", "mixed"])
+            sort = force_sort or rng.choice(["int", "int", "str", "str", "bool", "date", "mixed", "hash", "hash"])
             pool = POOLS[sort]
             shared = rng.sample(pool, rng.randint(1, min(3, len(pool))))
             lonly = [x for x in rng.sample(pool, 1) if rng.random() < 0.4]
@@ -103,7 +107,7 @@ def gen_pair(rng, maxrows=8, how=None, force_sort=None, min_rows=0):
             if q == 0 and nl and nr and sort in SENTINEL and rng.random() < 0.25:
                 lt[0] = SENTINEL[sort]                      # first left row matches nothing
             if q == 0 and nl and nr and sort in SENTINEL and rng.random() < 0.15:
-                rt[0] = ["s", "yy"] if sort in ("str", "mixed") else (["i", 88] if sort == "int" else ["d", 700001])
+                rt[0] = ["s", "yy"] if sort in ("str", "mixed") else (["i", 88] if sort in ("int", "hash") else ["d", 700001])
             if not _key_kinds_ok(lt, rt):
                 ok = False
                 break
@@ -141,6 +145,12 @@ def gen_pair(rng, maxrows=8, how=None, force_sort=None, min_rows=0):
             lon, ron = [lon[i] for i in perm], [ron[i] for i in perm]
         case = {"how": how or rng.choice(["inner", "left", "full"]), "expect": "many_to_many",
                 "L": L, "R": R, "lon": lon, "ron": ron, "single": nk == 1 and rng.random() < 0.5}
+        if rng.random() < 0.25:
+            # the observed call is preceded by other joins of the SAME two table objects (results discarded):
+            # joins are functions of the tables' contents, whatever was joined, with whatever expectation, before
+            case["warm"] = [[rng.choice(["inner", "left", "full"]), rng.choice(["many_to_many", "many_to_many",
+                                                                                "one_to_many", "many_to_one"])]
+                            for _ in range(rng.choice([1, 1, 2]))]
         return case
     return {"how": how or "inner", "expect": "many_to_many", "L": [["k0", [["i", 1]]]], "R": [["k0", [["i", 1]]]],
             "lon": [["n", "k0"]], "ron": [["n", "k0"]], "single": True}
@@ -290,6 +300,11 @@ def observe_join(case, aux=()):
         thunk, lv, rv = call_join(case, L, R)
         obs["veckinds"] = {"l": [_kind_tok(x) for x in lv], "r": [_kind_tok(x) for x in rv]}
         pre_vecs = [[V.enc(x) for x in vec._underlying] for vec in lv + rv]
+        for whow, wexp in case.get("warm", ()):
+            try:
+                call_join(case, L, R, how=whow, expect=wexp)[0]()
+            except Exception:                                # noqa: BLE001 - a refused warm-up call is fine
+                pass
         obs["res"] = result_obs(thunk)
         obs["post"] = {"L": table_state(L), "R": table_state(R)}
         obs["vecs_same"] = pre_vecs == [[V.enc(x) for x in vec._underlying] for vec in lv + rv]
